@@ -3,6 +3,7 @@ import Driver.OpsRoads
 import Driver.OpsAlloc
 import Driver.OpsFn
 import Driver.OpsC03
+import Driver.OpsSym
 namespace Driver
 
 def handlers : List Handler := [
@@ -11,6 +12,7 @@ def handlers : List Handler := [
   handleAlloc,
   handleFn,
   handleC03,
+  handleSym,
 ]
 
 def step (st : St) (line : String) : St × String :=
